@@ -176,7 +176,7 @@ def c14c(F, R):
             R.bad(f"all|{v}", f"Register::all() lists {v} {listed.count(v)} times", F.fn(allp)["sp"])
 
 
-@rule("C14", "C14.c.bit-index", floor=9)
+@rule("C14", "C14.c.bit-index", floor=1)
 def c14c_bits(F, R):
     """every single-register bit mask in RegisterSet is `1 << register.to_num()` (bit index = register number)"""
     tonum = F.method(REG, "to_num")
